@@ -5,6 +5,8 @@ package main
 import (
 	"fmt"
 	"go/ast"
+	"go/constant"
+	"go/token"
 	"go/types"
 	"os"
 	"path/filepath"
@@ -43,13 +45,16 @@ type Ctx struct {
 	mods      *modAnalysis
 	mutableGlobals map[string]bool
 	initNonNil     map[string]bool
+	initStrings    map[string][]string
+	fileLines      map[string][]string
+	overlay        map[string][]byte
 	ghostDefaults  []string
 	loadErrs  []string
 }
 
 func LoadCtx(repo, verif string, overlay map[string][]byte) (*Ctx, error) {
 	c := &Ctx{repo: repo, verif: verif, allPkgs: map[string]*packages.Package{}, ssaPkgs: map[string]*ssa.Package{},
-		funcByKey: map[string]*ssa.Function{}, sorts: NewSorts(), ufDecls: map[string]string{}, globals: map[string]int{}, opaque: map[string]int{}}
+		overlay: overlay, funcByKey: map[string]*ssa.Function{}, sorts: NewSorts(), ufDecls: map[string]string{}, globals: map[string]int{}, opaque: map[string]int{}}
 	cfg := &packages.Config{
 		Mode:       packages.LoadSyntax,
 		Dir:        repo,
@@ -132,6 +137,7 @@ func LoadCtx(repo, verif string, overlay map[string][]byte) (*Ctx, error) {
 	sort.Strings(c.ghostDefaults)
 	// package-level variables with an initialiser that is a call, composite literal, &literal or make()
 	c.initNonNil = map[string]bool{}
+	c.initStrings = map[string][]string{}
 	for _, p := range pkgs {
 		if p.TypesInfo == nil {
 			continue
@@ -139,6 +145,24 @@ func LoadCtx(repo, verif string, overlay map[string][]byte) (*Ctx, error) {
 		for _, init := range p.TypesInfo.InitOrder {
 			if len(init.Lhs) != 1 {
 				continue
+			}
+			if cl, ok := ast.Unparen(init.Rhs).(*ast.CompositeLit); ok {
+				// a slice literal of string constants (lookup tables such as InstallOrder): remember the elements
+				if _, isSlice := init.Lhs[0].Type().Underlying().(*types.Slice); isSlice {
+					var elems []string
+					okAll := true
+					for _, el := range cl.Elts {
+						tv, has := p.TypesInfo.Types[el]
+						if !has || tv.Value == nil || tv.Value.Kind() != constant.String {
+							okAll = false
+							break
+						}
+						elems = append(elems, constant.StringVal(tv.Value))
+					}
+					if okAll && len(elems) > 0 {
+						c.initStrings[p.PkgPath+"."+init.Lhs[0].Name()] = elems
+					}
+				}
 			}
 			switch x := ast.Unparen(init.Rhs).(type) {
 			case *ast.CompositeLit, *ast.CallExpr, *ast.FuncLit:
@@ -266,4 +290,30 @@ func (c *Ctx) heapNameOfModifies(m string) string {
 		return "G$" + m
 	}
 	return m
+}
+
+// sourceLine returns the text of the source line of a position (for `ensures at "..."`).
+func (c *Ctx) sourceLine(fn *ssa.Function, pos token.Pos) string {
+	if !pos.IsValid() || fn.Prog == nil {
+		return ""
+	}
+	p := fn.Prog.Fset.Position(pos)
+	if c.fileLines == nil {
+		c.fileLines = map[string][]string{}
+	}
+	lines, ok := c.fileLines[p.Filename]
+	if !ok {
+		var data []byte
+		if ov, has := c.overlay[p.Filename]; has {
+			data = ov
+		} else {
+			data, _ = os.ReadFile(p.Filename)
+		}
+		lines = strings.Split(string(data), "\n")
+		c.fileLines[p.Filename] = lines
+	}
+	if p.Line-1 < len(lines) && p.Line >= 1 {
+		return lines[p.Line-1]
+	}
+	return ""
 }
